@@ -9,6 +9,7 @@ namespace c03
   vrt::shard("shape/" NAME, [] {                                                               \
     auto const parser{PARSER};                                                                 \
     run_shape(NAME, parser, DESC, ALPHA, maxlen());                                            \
+    run_shape(NAME "+extended_names", parser, DESC, extended_names(ALPHA), 3);                 \
   }, 120)
 
 void register_c()
